@@ -94,6 +94,7 @@ type Sys struct {
 	fillCount map[int]int
 	lastUnreg *ecs.CachedFilter
 	chaosSeq  int
+	mappers   [nStaticRes]interface{} // persistent generic.Resource mappers
 }
 
 var allSubs = event.Subscription(63)
@@ -116,8 +117,10 @@ func NewSys(name string, p *Plan) *Sys {
 	s.ResIDs = make([]ecs.ResID, p.ResTypes)
 	s.ResReg = make([]bool, p.ResTypes)
 	for i := 0; i < p.ResTypes; i++ {
-		if i%2 == 1 {
-			s.resID(i) // odd indices are registered up front, even ones at first use (possibly in a locked world)
+		// odd indices are registered up front, even ones at first use (possibly in a locked world); plans with many
+		// resource types register nearly all of them up front so that the high IDs are reached at all
+		if i%2 == 1 || (p.ResTypes > 32 && i%37 != 0) {
+			s.resID(i)
 		}
 	}
 	s.ResVals = make([]interface{}, p.ResTypes)
@@ -200,29 +203,33 @@ func nilIfNilPtr[T any](p *T) interface{} {
 
 // staticRes performs a resource operation on one of the static resource types through the generic access paths.
 // path 1: generic.Resource[T]; path 2: ecs.AddResource / ecs.GetResource.
-func staticRes[T any](w *ecs.World, variant string, path int, mk func() *T, res *Result) {
+func staticRes[T any](s *Sys, slot int, variant string, path int, mk func() *T, res *Result) {
+	w := s.W
+	// the generic mapper is created once and kept, like a system would keep it
+	var r *generic.Resource[T]
+	if s.mappers[slot] == nil {
+		m := generic.NewResource[T](w)
+		s.mappers[slot] = &m
+	}
+	r = s.mappers[slot].(*generic.Resource[T])
 	switch variant {
 	case "Add":
 		v := mk()
 		if path == 2 {
 			ecs.AddResource[T](w, v)
 		} else {
-			r := generic.NewResource[T](w)
 			r.Add(v)
 		}
 		res.Any = v
 	case "Remove":
-		r := generic.NewResource[T](w)
 		r.Remove()
 	case "Get":
 		if path == 2 {
 			res.Any = nilIfNilPtr(ecs.GetResource[T](w))
 		} else {
-			r := generic.NewResource[T](w)
 			res.Any = nilIfNilPtr(r.Get())
 		}
 	case "Has":
-		r := generic.NewResource[T](w)
 		res.Bool = r.Has()
 	}
 }
@@ -807,13 +814,13 @@ func (s *Sys) Apply(op *COp) (res Result) {
 			k := uint64(op.K)
 			switch op.Res {
 			case 0:
-				staticRes(w, op.Variant, op.K2, func() *SR0 { return &SR0{V: k} }, &res)
+				staticRes(s, 0, op.Variant, op.K2, func() *SR0 { return &SR0{V: k} }, &res)
 			case 1:
-				staticRes(w, op.Variant, op.K2, func() *SR1 { return &SR1{V: k} }, &res)
+				staticRes(s, 1, op.Variant, op.K2, func() *SR1 { return &SR1{V: k} }, &res)
 			case 2:
-				staticRes(w, op.Variant, op.K2, func() *SR2 { return &SR2{V: uint32(k)} }, &res)
+				staticRes(s, 2, op.Variant, op.K2, func() *SR2 { return &SR2{V: uint32(k)} }, &res)
 			case 3:
-				staticRes(w, op.Variant, op.K2, func() *SR3 { return &SR3{S: "r"} }, &res)
+				staticRes(s, 3, op.Variant, op.K2, func() *SR3 { return &SR3{S: "r"} }, &res)
 			}
 			break
 		}
